@@ -30,7 +30,7 @@ static void conn_from_capture(Rng &rng, ConnPlan &cp, std::vector<Op> &ops, int 
     }
 }
 
-static void make_multipart_request(Rng &rng, MsgSpec &q);   // defined with the C14 material
+static void make_multipart_request(Rng &rng, MsgSpec &q, bool hostile = false);   // defined with the C14 material
 
 static void chaos_plan(Rng &rng, Plan &p, const std::string &prop) {
     p.prop = prop; p.scenario = "chaos";
@@ -55,7 +55,7 @@ static void chaos_plan(Rng &rng, Plan &p, const std::string &prop) {
                 CbFault cf; cf.hook = HK[rng.below(sizeof HK / sizeof *HK)]; cf.nth = (int) rng.range(1, (int64_t) s.req.size()); cf.action = rng.coin() ? CB_STOP : CB_ERROR; p.cbs.push_back(cf);
             }
             // stateful body parsers under faults: some requests carry a multipart/form-data body
-            if (!conn_script && rng.chance(1, 4)) { size_t k = rng.below(s.req.size()); if (s.req[k].method != "HEAD" && s.req[k].method != "CONNECT" && s.res[k].interim.empty()) make_multipart_request(rng, s.req[k]); }
+            if (!conn_script && rng.chance(1, 4)) { size_t k = rng.below(s.req.size()); if (s.req[k].method != "HEAD" && s.req[k].method != "CONNECT" && s.res[k].interim.empty()) make_multipart_request(rng, s.req[k], rng.coin()); }
             if (!conn_script) build_conn_from_script(rng, s, cp, false);
         } else {
             ordered = rng.coin();
@@ -205,8 +205,6 @@ static void skeleton_ops(Rng &rng, const ConnPlan &cp, int skeleton, const std::
 
 struct PartSpec;
 static void c14_build(Rng &rng, Bytes &content_type, Bytes &body, std::vector<PartSpec> &parts, bool &lf_only);
-static void make_multipart_request(Rng &rng, MsgSpec &q);   // defined with the C14 material
-
 static void c03_plan(Rng &rng, Plan &p, uint64_t variant) {
     p.prop = "C03"; p.scenario = "diff";
     wellformed_cfg(rng, p.cfg);
@@ -825,9 +823,33 @@ static void c14_build(Rng &rng, Bytes &content_type, Bytes &body, std::vector<Pa
     if (rng.chance(1, 6)) body += "epilogue";
 }
 
-static void make_multipart_request(Rng &rng, MsgSpec &q) {
+static void make_multipart_request(Rng &rng, MsgSpec &q, bool hostile) {
     Bytes ct, body; std::vector<PartSpec> parts; bool lf;
     c14_build(rng, ct, body, parts, lf);
+    if (hostile) {
+        // not well-formed any more (scenarios without ground truth only): part headers and the boundary parameter in the forms the
+        // multipart parser has special code for
+        static const char *CD[] = {"Content-Disposition: form-data; name=\"a\"; name=\"b\"", "Content-Disposition: form-data; name=a", "Content-Disposition: form-data; name='a'", "Content-Disposition: attachment",
+            "Content-Disposition: form-data; filename=\"x", "Content-Disposition: form-data name=\"a\"", "Content-Disposition: form-data; name=\"a\" x", "Content-Disposition: form-data; =\"a\"",
+            "Content-Disposition: form-data; name=\"a\"; filename=\"f\"; filename=\"g\"", "Content-Disposition: form-data; name=\"a\\\"b\"", "Content-Disposition:form-data;name=\"a\"", "Content-Disposition: form-data; name=\"a\";",
+            "Content-Disposition: form-data; name=", "Content-Disposition: form-data; name=\"a\"; x=y", "content-disposition: FORM-DATA; NAME=\"a\"", "Content-Disposition: form-data;\tname=\"a\"", "X-Unknown: v",
+            "Content-Disposition: form-data; name=\"a\"\r\n continued", "Content-Type: text/plain\r\nContent-Type: text/html", ": novalue", "NoColonLine", "Content-Disposition: form-data; name=\"a\"\r\nContent-Disposition: form-data; name=\"b\""};
+        for (int i = 0; i < 3; i++) {
+            size_t at = body.find("Content-Disposition:", (size_t) rng.below(body.size() + 1));
+            if (at == std::string::npos) break;
+            size_t e = body.find('\n', at); if (e == std::string::npos) break;
+            size_t end = (e > at && body[e - 1] == '\r') ? e - 1 : e;
+            body.replace(at, end - at, CD[rng.below(sizeof CD / sizeof *CD)]);
+        }
+        if (rng.chance(1, 3)) {
+            static const char *CT[] = {"multipart/form-data; boundary='%s'", "multipart/form-data; boundary=\"%s\"", "multipart/form-data; BOUNDARY=%s; boundary=zzz", "multipart/form-data; boundary=%s; charset=utf-8",
+                "multipart/form-data; boundary = %s", "multipart/form-data; boundary=%s,x", "multipart/form-data boundary=%s", "MULTIPART/FORM-DATA; boundary=\"%s", "multipart/form-data;boundary=%s", "multipart/form-data; boundary= %s ",
+                "multipart/form-data; boundary=%s; boundary=%s", "multipart/mixed; boundary=%s", "multipart/form-data; bound=%s"};
+            size_t eq = ct.find("boundary="); std::string b = eq == std::string::npos ? std::string("x") : ct.substr(eq + 9);
+            std::string f = CT[rng.below(sizeof CT / sizeof *CT)]; std::string out; for (size_t i = 0; i < f.size(); i++) { if (f[i] == '%' && i + 1 < f.size() && f[i + 1] == 's') { out += b; i++; } else out.push_back(f[i]); }
+            ct = out;
+        }
+    }
     std::vector<HeaderSpec> keep; for (auto &h : q.headers) { std::string ln = lower(h.name); if (ln != "content-length" && ln != "transfer-encoding" && ln != "content-type" && ln != "expect") keep.push_back(h); } q.headers.swap(keep);
     q.method = "POST"; q.trailers.clear(); q.chunk_sizes.clear(); q.chunk_ext.clear(); q.interim.clear();
     { HeaderSpec h; h.name = "Content-Type"; h.value = ct; q.headers.push_back(h); }
@@ -1224,9 +1246,8 @@ static void c18_plan(Rng &rng, Plan &p) {
         s.req.push_back(q); s.res.push_back(r); build_conn_from_script(rng, s, cp, false);
     } else if (src < 8) {
         // multipart upload with a file part (file extraction exercises the file layer under memory pressure)
-        Bytes ct, body; std::vector<PartSpec> parts; bool lf; c14_build(rng, ct, body, parts, lf);
-        Script s; MsgSpec q; q.method = "POST"; q.target = "/id0/c18"; { HeaderSpec h; h.name = "Host"; h.value = "c18.example"; q.headers.push_back(h); } { HeaderSpec h; h.name = "Content-Type"; h.value = ct; q.headers.push_back(h); }
-        q.framing = FR_CL; q.body = q.payload = body; { HeaderSpec h; h.name = "Content-Length"; h.value = strfmt("%zu", body.size()); q.headers.push_back(h); }
+        Script s; MsgSpec q; q.method = "POST"; q.target = "/id0/c18"; q.version = "HTTP/1.1"; { HeaderSpec h; h.name = "Host"; h.value = "c18.example"; q.headers.push_back(h); }
+        make_multipart_request(rng, q, rng.coin());   // half of them with the odd part headers / boundary parameters the parser special-cases
         MsgSpec r; r.is_request = false; r.status = 200; r.reason = "OK"; r.framing = FR_CL; { HeaderSpec h; h.name = "Content-Length"; h.value = "0"; r.headers.push_back(h); }
         s.req.push_back(q); s.res.push_back(r); build_conn_from_script(rng, s, cp, false);
     } else { GenFeatures f; f.wild_path = true; f.content_coding = true; Script s = random_script(rng, f, (int) rng.range(1, 5), 0); build_conn_from_script(rng, s, cp, false); }
